@@ -159,7 +159,7 @@ def PAFinder.var (r : PAFinder) : Rat := qabs r.Q.toRat * (2 * r.kMax + 1) + 2 *
 /-- Decidable side conditions of the perihelion_aphelion theorems: positive rate, the half step is 1/2,
     the period exceeds the variation (first approximations strictly increasing), `|k| + 1 ≤ kMax` on -2000..4000. -/
 def PAFinder.ok (r : PAFinder) : Bool :=
-  decide (0 < r.C.toRat) && decide (r.half.toRat = 1 / 2)
+  decide (0 < r.C.toRat) && decide (r.half.toRat = 1 / 2) && decide (0 < r.P.toRat)
   && decide (0 < r.P.toRat - r.var)
   && decide (r.C.toRat * (4000 - r.Y0.toRat) + 2 ≤ r.kMax) && decide (r.C.toRat * (r.Y0.toRat + 2000) + 2 ≤ r.kMax)
 
